@@ -20,7 +20,7 @@ RULE = ('hostile multi-MiB streams per format (valid images, every length/count/
         'values, pure text, random) x chunk schedules (giant, 1 MiB, 64 KiB, 4 KiB, boundary cuts, byte windows); the '
         'retained total is read after every chunk. non-trivial = stream longer than the bound of its inspector; '
         'distinct by (stream spec, inspector, schedule)')
-REQUIRED_CLAUSES = ['bound-under-reused-chunk-buffers', 'bound-after-chunk', 'bound-after-finish', 'clamp-reached-vmdk', 'clamp-reached-vhdx']
+REQUIRED_CLAUSES = ['under-debug-logging', 'bound-under-reused-chunk-buffers', 'bound-after-chunk', 'bound-after-finish', 'clamp-reached-vmdk', 'clamp-reached-vhdx']
 ASSUMPTIONS = ['context_info is the audit accessor named by the property; len(region.data) is cross-checked against it']
 INTERPRETER_FLAGS = [[], ['-O'], ['-X', 'dev'], ['-bb']]
 SHARDS = {'quick': 8, 'thorough': 16}
